@@ -53,6 +53,12 @@ const hp = "pkg/protocols/httpprot"
 // the helper → R-C07-1; default replacement dropped / helper never defaults → R-C07-3; declared
 // test dropped in the shared body → R-C07-3; probe result ignored → R-C07-4.
 //
+// Third set of refactorings: when the limit handed to FetchPayload is a parameter the function only
+// passes on (buildResponse(spCtx, stdResp, maxBodySize)) R-C07-2 is decided in its same-package
+// callers with the function interpreted in place; the stream of a message is resolved by type (a
+// *ByteCountReader field of the message or of a same-package struct it holds) and the functions
+// storing a payload of any type into it (SetPayload, content.set) are sinks.
+//
 // Round-4 seeded change C07/g (unknown-length tails extracted, read by make + io.ReadFull, short
 // body recognised by err == io.EOF || err == io.ErrUnexpectedEOF): the reads are classified by role
 // (declared-length read = ReadFull into ContentLength bytes; unknown-length read = ReadAll through
@@ -496,6 +502,52 @@ func c07LimitIn(c *core.Ctx, entry *flow.Func, cons string, fetch *ast.CallExpr,
 		for _, st := range res.At[fetch] {
 			uses = append(uses, use{st, t.get(st, x)})
 		}
+		// the limit is a parameter the function only passes on (buildResponse(spCtx, stdResp,
+		// maxBodySize)): the selection is made by its callers, each is analysed with the function
+		// interpreted in place
+		if callers := c07ParamCallers(entry, fns, x); len(callers) > 0 {
+			known := false
+			for _, u := range uses {
+				known = known || u.src != flow.Unknown
+			}
+			if !known {
+				uses = nil
+				for _, caller := range callers {
+					keep := map[types.Object]bool{}
+					for _, g := range fns {
+						keep[muxFuncObj(g)] = true
+					}
+					var opq []types.Object
+					for _, g := range muxReach(caller, 4, omap)[1:] {
+						o := muxFuncObj(g)
+						if o == nil || keep[o] {
+							continue
+						}
+						if sig, ok := o.Type().(*types.Signature); ok && sig.Results().Len() == 1 && types.Identical(sig.Results().At(0).Type(), types.Typ[types.Int64]) {
+							continue // a helper that selects the limit
+						}
+						opq = append(opq, o)
+					}
+					opq = append(opq, opaque...)
+					om2 := map[types.Object]bool{}
+					for _, o := range opq {
+						om2[o] = true
+					}
+					t2 := newC07Src(caller, muxReach(caller, 4, om2), specific, general, inlineSamePkg(caller, opq...))
+					res2 := muxAnalyzeInl(c, caller, t2.config(flow.Config{}), opq...)
+					if res2 == nil {
+						return
+					}
+					if len(res2.At[fetch]) == 0 {
+						c.Undecide("R-C07-2", cons+"|effective "+what, pos(c, fetch), "the limit is a parameter and the FetchPayload call is not reached from "+caller.Name)
+						return
+					}
+					for _, st := range res2.At[fetch] {
+						uses = append(uses, use{st, t2.get(st, x)})
+					}
+				}
+			}
+		}
 	case *ast.CallExpr:
 		// the selection is a function of its own: FetchPayload(h(..))
 		fo, _ := entry.Callee(x).(*types.Func)
@@ -573,6 +625,161 @@ func c07LimitIn(c *core.Ctx, entry *flow.Func, cons string, fetch *ast.CallExpr,
 	c.Check(bad == nil, "R-C07-2", cons+"|effective "+what, pos(c, fetch), "specific value when non-zero, general value exactly when the specific one is 0", why, witness(bad)...)
 }
 
+// c07ParamCallers returns the same-package callers of entry when x (an operand inside entry or one
+// of the helpers fns) is, through plain copies, nothing but a parameter of entry.
+func c07ParamCallers(entry *flow.Func, fns []*flow.Func, x *ast.Ident) []*flow.Func {
+	fd, ok := entry.Node.(*ast.FuncDecl)
+	if !ok || fd.Type.Params == nil {
+		return nil
+	}
+	params := map[types.Object]bool{}
+	for _, fld := range fd.Type.Params.List {
+		for _, nm := range fld.Names {
+			params[entry.Info.Defs[nm]] = true
+		}
+	}
+	vf := newMuxFlow(fns)
+	vals := vf.flat(x)
+	if len(vals) == 0 {
+		return nil
+	}
+	for _, v := range vals {
+		if v.root == nil || len(v.fields) != 0 || !params[v.root] {
+			return nil
+		}
+	}
+	eo := muxFuncObj(entry)
+	if eo == nil {
+		return nil
+	}
+	var out []*flow.Func
+	for _, file := range entry.Pkg.Syntax {
+		for _, d := range file.Decls {
+			cd, ok := d.(*ast.FuncDecl)
+			if !ok || cd.Body == nil || cd == fd {
+				continue
+			}
+			calls := false
+			ast.Inspect(cd.Body, func(n ast.Node) bool {
+				if call, ok := n.(*ast.CallExpr); ok {
+					if id := muxCalleeIdent(call); id != nil {
+						if fo, ok := entry.Info.Uses[id].(*types.Func); ok && fo.Origin() == eo {
+							calls = true
+						}
+					}
+				}
+				return !calls
+			})
+			if calls {
+				out = append(out, funcOf(entry.Pkg, cd))
+			}
+		}
+	}
+	return out
+}
+
+func muxCalleeIdent(call *ast.CallExpr) *ast.Ident {
+	switch f := ast.Unparen(call.Fun).(type) {
+	case *ast.Ident:
+		return f
+	case *ast.SelectorExpr:
+		return f.Sel
+	}
+	return nil
+}
+
+// c07StreamFields resolves, by type, the fields in which a message (Request / Response) keeps its
+// stream: *readers.ByteCountReader fields of the message struct and of the same-package structs it
+// holds (by value or by pointer) in a field.
+func c07StreamFields(c *core.Ctx, recv string) map[*types.Var]bool {
+	out := map[*types.Var]bool{}
+	n := namedType(c, hp, recv)
+	if n == nil {
+		return out
+	}
+	var visit func(t types.Type, depth int)
+	visit = func(t types.Type, depth int) {
+		st, ok := t.Underlying().(*types.Struct)
+		if !ok || depth > 2 {
+			return
+		}
+		for i := 0; i < st.NumFields(); i++ {
+			fv := st.Field(i)
+			if strings.HasSuffix(fv.Type().String(), "pkg/util/readers.ByteCountReader") {
+				out[fv] = true
+				continue
+			}
+			if h := muxDerefNamed(fv.Type()); h != nil && h.Obj().Pkg() == n.Obj().Pkg() && !fv.Embedded() {
+				visit(h, depth+1)
+			}
+		}
+	}
+	visit(n, 0)
+	return out
+}
+
+// c07PayloadSetters returns the functions of httpprot that take one operand of interface type,
+// return nothing and store into a stream field (directly or through one such function).
+func c07PayloadSetters(c *core.Ctx, streamFs map[*types.Var]bool) map[types.Object]bool {
+	out := map[types.Object]bool{}
+	pkg := c.Prog.Pkg(hp)
+	if pkg == nil {
+		return out
+	}
+	for round := 0; round < 2; round++ {
+		for _, file := range pkg.Syntax {
+			for _, d := range file.Decls {
+				fd, ok := d.(*ast.FuncDecl)
+				if !ok || fd.Body == nil {
+					continue
+				}
+				fo, _ := pkg.TypesInfo.Defs[fd.Name].(*types.Func)
+				if fo == nil || out[fo] {
+					continue
+				}
+				sig := fo.Type().(*types.Signature)
+				if sig.Params().Len() != 1 || sig.Results().Len() != 0 {
+					continue
+				}
+				if _, isIface := sig.Params().At(0).Type().Underlying().(*types.Interface); !isIface {
+					continue
+				}
+				stores := false
+				ast.Inspect(fd.Body, func(x ast.Node) bool {
+					switch y := x.(type) {
+					case *ast.AssignStmt:
+						for _, l := range y.Lhs {
+							if sel, ok := ast.Unparen(l).(*ast.SelectorExpr); ok {
+								if sl := pkg.TypesInfo.Selections[sel]; sl != nil {
+									if fv, ok := sl.Obj().(*types.Var); ok && streamFs[fv] {
+										stores = true
+									}
+								}
+							}
+						}
+					case *ast.CallExpr:
+						if id := muxCalleeIdent(y); id != nil {
+							if io, ok := pkg.TypesInfo.Uses[id].(*types.Func); ok && out[io.Origin()] {
+								stores = true
+							}
+						}
+					}
+					return !stores
+				})
+				if stores {
+					out[fo] = true
+				}
+			}
+		}
+	}
+	return out
+}
+
+func c07IsSetter(g *flow.Func, call *ast.CallExpr, setters map[types.Object]bool) bool {
+	fo, ok := g.Callee(call).(*types.Func)
+	return ok && setters[fo.Origin()]
+}
+
 // c07RespFetch locates resp.FetchPayload in ServerPool.buildResponse or a same-package helper.
 func c07RespFetch(f *flow.Func) (*ast.CallExpr, *flow.Func) {
 	for _, g := range reach(f, 3) {
@@ -640,6 +847,14 @@ func c07Fetch(c *core.Ctx, recv string) {
 		if g := fnOpt(c, hp, r, "SetPayload"); g != nil {
 			opaque[muxFuncObj(g)] = true
 		}
+	}
+	// the stream of the message by role: the *ByteCountReader field of the message, or of a
+	// same-package struct the message holds its payload in (`content payloadHolder`); the
+	// functions that take a payload of any type and store it (SetPayload, content.set) are sinks
+	streamFs := c07StreamFields(c, recv)
+	setters := c07PayloadSetters(c, streamFs)
+	for o := range setters {
+		opaque[o] = true
 	}
 	fns := muxReach(f, 3, opaque)
 	vf := newMuxFlow(fns)
@@ -731,7 +946,10 @@ func c07Fetch(c *core.Ctx, recv string) {
 	var mk, readFull, readAll, probe *ast.CallExpr
 	var makes, fulls []*ast.CallExpr
 	var streamSets []ast.Node
-	streamF := structField(c, hp, recv, "stream")
+	if len(streamFs) == 0 {
+		c.Undecide("R-C07-3", cons+"|stream iff negative limit", pos(c, f.Body), "cannot resolve where the "+recv+" keeps its stream (no *ByteCountReader field in it or in a struct it holds)")
+		return
+	}
 	for _, g := range fns {
 		for _, call := range calls(g.Body, false) {
 			full := calleeFull(g, call)
@@ -748,7 +966,7 @@ func c07Fetch(c *core.Ctx, recv string) {
 				if strings.HasSuffix(f.Render(call.Args[0]), "io.Discard") {
 					probe = call
 				}
-			case methodName(call) == "SetPayload" && len(call.Args) == 1:
+			case (methodName(call) == "SetPayload" || c07IsSetter(g, call, setters)) && len(call.Args) == 1:
 				// SetPayload(<Body>) makes a stream (Response side)
 				if tv, ok := info.Types[call.Args[0]]; ok && tv.Type != nil && tv.Type.String() == "io.ReadCloser" {
 					streamSets = append(streamSets, call)
@@ -759,8 +977,10 @@ func c07Fetch(c *core.Ctx, recv string) {
 			if as, ok := n.(*ast.AssignStmt); ok {
 				for _, l := range as.Lhs {
 					if sel, ok := ast.Unparen(l).(*ast.SelectorExpr); ok {
-						if s := info.Selections[sel]; s != nil && s.Obj() == streamF {
-							streamSets = append(streamSets, as)
+						if s := info.Selections[sel]; s != nil {
+							if fv, ok := s.Obj().(*types.Var); ok && streamFs[fv] {
+								streamSets = append(streamSets, as)
+							}
 						}
 					}
 				}
